@@ -189,28 +189,160 @@ def any_drop(d):
 
 
 # ------------------------------------------------------------------ classifier
+K_NODTYPE_ADD = "add-missing-columns-column-without-dtype"
+K_PL_NODTYPE_COERCE = "polars-coerce-column-without-dtype"
+K_PL_SAMPLE = "polars-sample-option-unsupported-on-lazyframe"
+K_PL_DROP_SHAPE = "polars-drop-invalid-rows-check-output-shape-mismatch"
+K_PL_ADD_SELECT = "polars-add-missing-columns-final-select-of-absent-or-filtered-column"
+K_PL_ABSENT = "polars-core-parsers-touch-absent-column"
+K_PL_DEFAULT_TYPE = "polars-default-fill-on-differently-typed-column"
+K_PL_SCHEMA_ONLY = "polars-schema-only-coercion-failure-surfaces-at-collect"
+K_NONFRAME = "non-dataframe-argument-not-typeerror"
+K_REGEX_MI = "regex-column-on-multiindex-columns-raises-indexerror"
+K_MI_COLS = "pandas-multiindex-columns-with-scalar-schema-keys"
+K_UNHASHABLE = "unique-on-unhashable-cells"
+K_COL_DROP = "pandas-column-level-drop-invalid-rows-none-check-obj"
+K_FRAME_COERCE_FC = "frame-dtype-coercion-failure-cases-reshape"
+K_JOINT_DUPIDX = "joint-unique-failure-cases-duplicate-index-labels"
+K_MI_SCHEMA = "multiindex-schema-coerce-on-plain-index"
+
+
+def _fields(d):
+    sp = d["spec"]
+    return sp["columns"] if sp["kind"] == "frame" else [sp["field"]]
+
+
+def _labels(d):
+    return [G6.dec_label(c["name"]) for c in d["table"]["columns"]]
+
+
+def absent_declared(d):
+    if d["spec"]["kind"] != "frame":
+        return []
+    labels = set(map(repr, _labels(d)))
+    return [f for f in _fields(d) if not f.get("regex")
+            and repr(G6.dec_label(f.get("key", f["name"]))) not in labels]
+
+
+def mi_columns(d):
+    labs = _labels(d)
+    return bool(labs) and all(isinstance(x, tuple) for x in labs)
+
+
+def has_unhashable(d):
+    return any(isinstance(v, dict) for c in d["table"]["columns"]
+               for v in c["values"])
+
+
+def dup_index(d):
+    ix = d["table"].get("index")
+    if not ix:
+        return False
+    rows = list(zip(*[lv["values"] for lv in ix["levels"]]))
+    return len(set(map(repr, rows))) != len(rows)
+
+
+def mi_schema_plain_index(d):
+    ix = d["spec"].get("index")
+    tix = d["table"].get("index")
+    return bool(ix) and len(ix) > 1 and (not tix or len(tix["levels"]) < 2)
+
+
+def any_coerce(d):
+    return bool(d["spec"].get("coerce")) or any(f.get("coerce") for f in _fields(d)) \
+        or any(f.get("coerce") for f in (d["spec"].get("index") or []))
+
+
 def classify_leak(d, o):
-    """Mechanism of an exception outside the documented channel."""
+    """Mechanism of an exception outside the documented channel (witness =
+    descriptor + exception type + pandera frames of the traceback)."""
     e = o.exc
     fr = frames_of(e)
     name = type(e).__name__
+    mod = type(e).__module__ or ""
+    msg = str(e)
     last = fr[-1] if fr else ""
-    if (d["backend"] == "pandas" and name == "TypeError" and any_drop(d)
+    sp, call = d["spec"], d["call"]
+    pandas, polars = d["backend"] == "pandas", d["backend"] == "polars"
+    fields = _fields(d)
+    if not o.is_frame:
+        return K_NONFRAME if pandas or polars else None
+    if (pandas and name == "TypeError" and any_drop(d)
             and last == "backends/pandas/base.py:drop_invalid_rows"):
         return K_D3
-    if (d["backend"] == "polars" and name == "NotImplementedError"
+    if (polars and name == "NotImplementedError"
             and last == "backends/polars/base.py:failure_cases_metadata"):
         return K_D11
-    if (name == "ParserError" and d["spec"].get("add_missing_columns")
+    if (name == "ParserError" and sp.get("add_missing_columns")
             and "backends/pandas/container.py:_construct_missing_df" in fr):
         return K_D26
-    if (name in ("ValueError", "ComputeError") and d["spec"].get("unique")
+    if (name == "AttributeError" and sp.get("add_missing_columns")
+            and any(f["dtype"] is None for f in absent_declared(d))
+            and ("backends/pandas/container.py:_construct_missing_df" in fr
+                 or last == "backends/polars/container.py:add_missing_columns")):
+        return K_NODTYPE_ADD
+    if (polars and name == "AttributeError"
+            and last == "backends/polars/container.py:_coerce_dtype_helper"
+            and any(f["dtype"] is None and (f.get("coerce") or sp.get("coerce"))
+                    for f in fields)):
+        return K_PL_NODTYPE_COERCE
+    if (polars and name == "AttributeError" and call.get("sample")
+            and last == "backends/polars/base.py:subsample"):
+        return K_PL_SAMPLE
+    if polars and name == "ShapeError" and mod.startswith("polars") and any_drop(d):
+        return K_PL_DROP_SHAPE
+    if (name in ("ValueError", "ComputeError") and sp.get("unique")
             and any(f.endswith(":check_column_values_are_unique") for f in fr)):
         names = {str(c["name"]) for c in d["table"]["columns"]}
-        uq = d["spec"]["unique"]
+        uq = sp["unique"]
         groups = [uq] if all(isinstance(x, str) for x in uq) else uq
         if any(not [x for x in g if x in names] for g in groups):
             return K_D25
+    if polars and name == "ColumnNotFoundError":
+        absent = absent_declared(d)
+        declared = {str(f.get("key", f["name"])) for f in fields}
+        undeclared = [l for l in _labels(d) if str(l) not in declared]
+        if (sp.get("add_missing_columns") and any(f.get("required", True) for f in absent)
+                and (any(not f.get("required", True) for f in absent)
+                     or (undeclared and sp.get("strict") == "filter"))):
+            return K_PL_ADD_SELECT
+        if any(f.get("coerce") or sp.get("coerce") or f.get("default") is not None
+               for f in absent):
+            return K_PL_ABSENT
+        return None
+    if (polars and mod.startswith("polars")
+            and name in ("SchemaError", "InvalidOperationError", "ComputeError")
+            and any(f.get("default") is not None for f in fields)
+            and ("backends/polars/components.py:set_default" in fr
+                 or "supertype" in msg or "'literal'" in msg)):
+        return K_PL_DEFAULT_TYPE
+    if (polars and mod.startswith("polars") and call.get("depth") == "SCHEMA_ONLY"
+            and any_coerce(d) and last == "api/polars/container.py:validate"):
+        return K_PL_SCHEMA_ONLY
+    if (pandas and name == "IndexError" and mi_columns(d)
+            and last == "backends/pandas/components.py:get_regex_columns"
+            and any(f.get("regex") for f in fields)):
+        return K_REGEX_MI
+    if (name == "TypeError" and "unhashable" in msg and has_unhashable(d)
+            and (sp.get("unique") or any(f.get("unique") for f in fields))):
+        return K_UNHASHABLE
+    if (pandas and name == "TypeError" and "'NoneType' object is not subscriptable" in msg
+            and any(f.get("drop_invalid_rows") for f in fields)
+            and "backends/pandas/components.py:validate" in fr):
+        return K_COL_DROP
+    if (pandas and sp.get("dtype") is not None
+            and "engines/utils.py:numpy_pandas_coerce_failure_cases" in fr):
+        return K_FRAME_COERCE_FC
+    if (pandas and name == "ValueError" and sp.get("unique") and dup_index(d)
+            and last == "backends/pandas/error_formatters.py:reshape_failure_cases"):
+        return K_JOINT_DUPIDX
+    if (pandas and mi_schema_plain_index(d) and any_coerce(d)
+            and name in ("BackendNotFoundError", "ValueError")
+            and any(f.endswith(":coerce_dtype") for f in fr)):
+        return K_MI_SCHEMA
+    if (pandas and mi_columns(d)
+            and name in ("KeyError", "TypeError", "ValueError", "IndexError")):
+        return K_MI_COLS
     return None
 
 
